@@ -54,6 +54,10 @@ def check_case(ctx, case):
         doc = '+-+\n# Legend:\na = {' + payload + '}\n'
         if case.get('dup'):
             doc = '+-+\n# Legend:\na = {fill:red}\na = {' + payload + '}\n'
+    elif ch == 'glyph':
+        # a character WITH a drawing meaning inside a word: it may be drawn or shown, but what is shown as text
+        # must be the literal input characters
+        doc = 'don' + payload + 't wo' + payload + payload + 'rd\n'
     elif ch == 'tag':
         # a class tag inside a box: whatever part of it becomes a class name must still be representable
         doc = '+' + '-' * 12 + '+\n| {a' + payload + '} b  |\n+' + '-' * 12 + '+\n'
@@ -81,6 +85,11 @@ def check_case(ctx, case):
         want = nl_norm('a' + representable(''.join(c for c in payload if c not in RUST_WS and c != '\0')) + 'b')
         if got != want:
             return 'text read back %r, the input characters are %r' % (got, want)
+    elif ch == 'glyph':
+        row = doc.rstrip('\n')
+        for t in texts:
+            if t[2] not in row:
+                return 'text element %r is not made of literal input characters of the row %r' % (t[2], row)
     elif ch == 'quoted':
         got = [nl_norm(t[2]) for t in texts]
         q = nl_norm(representable(payload.replace('\0', '')))
@@ -141,6 +150,10 @@ def run_shard(ctx, shard):
                 ctx.sample(cases[0] if cases else {'skipped': o})
         return
     rng = rng_for(ctx.seed, ID, shard['name'])
+    if shard['name'] == 'rand-0':
+        for c in sorted(drawing - set('"\n')):
+            for k in range(3):
+                ctx.run_case({'channel': 'glyph', 'payload': c, 'kw': kw_of(k)})
     plain_ok = [c for c in map(chr, range(0x21, 0x7f)) if c not in drawing]
     for i in range(shard['n']):
         def rch():
